@@ -634,6 +634,25 @@ gen_plan_entry(const ProfileCfg &pc, uint64_t run_seed)
                                         j.aiv_len = 16;
                                 op.jobs.push_back(j);
                         }
+                        // batch entry points: now and then a count of zero (everything else set up as usual)
+                        switch (op.kind == OP_DIRECT ? op.a : 0) {
+                        case D_ZUC_EEA3_N:
+                        case D_ZUC_EIA3_N:
+                        case D_SNOW3G_F8_N:
+                        case D_SNOW3G_F8_N_MK:
+                        case D_KASUMI_F8_N:
+                        case D_QUIC_GCM:
+                        case D_QUIC_CHACHAPOLY:
+                        case D_QUIC_HP_AES:
+                        case D_QUIC_HP_CHACHA:
+                                if (r.below(16) == 0) {
+                                        op.nocheck = 1;
+                                        if (op.jobs.size() > 3)
+                                                op.jobs.resize(3);
+                                }
+                                break;
+                        default: break;
+                        }
                 }
                 if (op.kind == OP_DIRECT && op.jobs.size() > 1 && !same_len_op(op.a) && r.chance(0.35)) {
                         // multi-buffer direct calls: the shortest buffer ends exactly on an internal key-stream / block group
